@@ -142,6 +142,26 @@ def body(R):
                 R.case(True)
                 R.check(got == ref(v, arr), "get_bin_on_value_1d", "get_bin_on_value_1d(%r, %r) = %r, expected %r" % (v, arr, got, ref(v, arr)),
                         {"val": v, "arr": arr}, {"fn": "replay_1d", "args": [v, arr]})
+    # exact python integers beyond 2**53 (e.g. nanosecond time stamps) with bins narrower than the float spacing there
+    R.scope("hist_functions.get_bin_on_value_1d",
+            "integer edges B + w*i (B in {2**53, 17*10**17, 10**30}, w in {1, 3, 100}, 2..8 edges) and integer values at every "
+            "edge, edge-1, edge+1 and mid-bin: compared exactly (python ints), reference bisect_right-1", True)
+    for B in (2 ** 53, 17 * 10 ** 17, 10 ** 30):
+        for w in (1, 3, 100):
+            for ne in range(2, 9):
+                arr = [B + w * i for i in range(ne)]
+                vals = set()
+                for e in arr:
+                    vals.update([e - 1, e, e + 1, e + w // 2])
+                for v in sorted(vals):
+                    try:
+                        got = guarded(get_bin_on_value_1d, v, arr)
+                    except Exception as e:
+                        got = "EXC %s" % type(e).__name__
+                    exp = ref(v, arr)
+                    R.case(True)
+                    R.check(got == exp, "get_bin_on_value_1d", "get_bin_on_value_1d(%r, %r) = %r, expected %r" % (v, arr, got, exp),
+                            {"val": v, "arr": arr}, {"fn": "replay_1d", "args": [v, arr]})
     n_h = 3000 if R.thorough else 400
     R.scope("histogram.fill / get_bin_on_value (dims 1..3)",
             "%d random histograms (2..5 edges per axis), 10 fills each at edges/outside/inside, weights {1,2,0.5,-1}" % n_h, False)
